@@ -16,11 +16,11 @@ CLAIMED = {
    note="Bounds: n<=6 (8 thorough) samples with integer timings, n<=4 (5) with symbolic increasing timings, graphs n<=5 (6). Exact rational arithmetic as the statement prescribes; float32 slope rounding outside. Translator validated against the compiled extension each run.",
    ref="DESIGN.md §3 C14"),
  "C03": dict(
-   engine="K",
-   technique="bounded symbolic execution of the real kernels (own guarded-merging interpreter over Cython's parse tree of the current numerics.pyx) + z3; sat models replayed on the real build through the public API",
-   text="Bounded model checking of the library's own measure code: the cliquishness kernels are executed symbolically over adjacency bits and shown by z3 to equal the clique-count definition for every graph up to the bound; the Newman chunk kernel equals its defining sum for every graph and real potential matrix.",
-   note='Bounds: cliquishness-4 n<=5 (6 thorough), cliquishness-5 n<=4 (5 thorough), Newman sums n<=4 (5). Exact reals, C widths erased. Measures forwarded to igraph/ARPACK are outside (not pyunicorn code). Translator validated against the compiled extension each run.',
-   ref="DESIGN.md §3 C03"),
+   engine="K+P",
+   technique="bounded symbolic execution of the real kernels (own guarded-merging interpreter over Cython's parse tree of the current numerics.pyx) and proxy-value execution of the real Network methods over adjacency bits / concrete topologies with symbolic link lengths; every comparison with the definition is a z3 query; sat models replayed on the real build through the public API",
+   text="Bounded model checking of the library's own measure code: cliquishness kernels equal the clique-count definition for every graph up to the bound; the Newman chunk kernel equals its defining sum; the n.s.i. shortest-path betweenness kernel equals the path-count definition for every weight vector and source mask (also on disconnected graphs); degree, in/out/bilateral degree, neighbour degrees, matching index, Laplacians and the four directed motif clustering coefficients equal their definitions on the adjacency matrix (no exception for isolated nodes); link-length weighted closeness, average path length and global efficiency equal their definitions on the path-length matrix and leave the memoised matrix unchanged.",
+   note='Bounds: cliquishness-4 n<=6, cliquishness-5 n<=6 per node, Newman sums n<=4 (5), n.s.i. betweenness all graphs n<=4, Python-level measures undirected bits n<=4 / directed bits n<=3, path family all graphs n<=4. Exact reals, C widths erased. Everything igraph/ARPACK computes (clustering, transitivity, unweighted closeness, betweenness, coreness, assortativity, spectral centralities) is outside: not pyunicorn code and not executable symbolically. Translator validated against the compiled extension each run.',
+   ref="DESIGN.md §8.5 C03"),
  "C04": dict(
    engine="K",
    technique="bounded symbolic execution of the real kernels (own guarded-merging interpreter over Cython's parse tree of the current numerics.pyx) + z3; sat models replayed on the real build through the public API",
